@@ -128,6 +128,11 @@ def run(repo, chk):
 
     from .shared import routing_obligations
     routing_obligations(repo, chk, "R04.4", "offer")
+    from .shared import call_aggregates
+    hv_, ok_hv_ = call_aggregates(repo, "hasval")
+    chk.ob("R04.4", "selector.Call.hasval:an-override-declines-under-conditions-on-nested-calls-too", ok_hv_, hv_.where,
+           "whether an override handler is wrapped by the selector's value check is decided by Call.hasval over the captures AND the child calls: "
+           "an override on `total > weight(scale=2) > w` declines (answers ABSENT) where the condition on the inner call does not hold")
     # ---------------- R04.3
     free_ix = [(p, ix, par) for p in H.get("visit_FunctionDef", []) for t, par, f in parents(p.template) if Q.is_interact(t)
                for ix in [Q.Interact(t)] if isinstance(ix.symname, Ident) and ix.symname.path == "free[*]"]
